@@ -79,6 +79,7 @@ class ServerModel:
                     if s == 0:
                         ops.append(('connect', s, ns, 'cre2', 0))
                         ops.append(('connect', s, ns, 'false', 1))
+                        ops.append(('connect', s, ns, 'boom', 0))
                 else:
                     ops.append(('cdisc', s, ns))
                     ops.append(('sdisc', s, ns))
